@@ -44,6 +44,16 @@ def _dtm(text):
     return dt.datetime.fromisoformat(text)
 
 
+def _extra(entity):
+    """Generically filled declared fields (specs.fill_extra)."""
+    out = {}
+    for name, value in (entity.get("extra") or {}).items():
+        if isinstance(value, dict) and "__datetime" in value:
+            value = _dtm(value["__datetime"])
+        out[name] = value
+    return out
+
+
 def _features(items):
     data = _data()
     return [
@@ -61,7 +71,13 @@ class World:
         self.roots: dict = {}
         g = spec.get
         self.users = [
-            data.User(**{**u, "uuid": uuidlib.UUID(u["uuid"])})
+            data.User(
+                **{
+                    **{k: v for k, v in u.items() if k != "extra"},
+                    "uuid": uuidlib.UUID(u["uuid"]),
+                    **_extra(u),
+                }
+            )
             for u in g("users", [])
         ]
         self.tags = [
@@ -76,6 +92,7 @@ class World:
                 start_time=c["start_time"],
                 end_time=c["end_time"],
                 features=_features(c.get("features", [])),
+                **_extra(c),
             )
             for c in g("clips", [])
         ]
@@ -85,6 +102,7 @@ class World:
                 recording=self.recordings[s["recording"]],
                 geometry=self._geometry(s.get("geometry")),
                 features=_features(s.get("features", [])),
+                **_extra(s),
             )
             for s in g("sound_events", [])
         ]
@@ -99,6 +117,7 @@ class World:
                     ],
                     parent=None if parent is None else self.sequences[parent],
                     features=_features(q.get("features", [])),
+                    **_extra(q),
                 )
             )
         self.se_annotations = [
@@ -134,6 +153,7 @@ class World:
                     if "created_on" in a
                     else {}
                 ),
+                **_extra(a),
             )
             for a in g("clip_annotations", [])
         ]
@@ -143,6 +163,7 @@ class World:
                 sound_event=self.sound_events[p["sound_event"]],
                 tags=self._predicted_tags(p.get("tags", [])),
                 **({"score": p["score"]} if "score" in p else {}),
+                **_extra(p),
             )
             for p in g("se_predictions", [])
         ]
@@ -152,6 +173,7 @@ class World:
                 sequence=self.sequences[p["sequence"]],
                 tags=self._predicted_tags(p.get("tags", [])),
                 **({"score": p["score"]} if "score" in p else {}),
+                **_extra(p),
             )
             for p in g("seq_predictions", [])
         ]
@@ -167,6 +189,7 @@ class World:
                 ],
                 tags=self._predicted_tags(p.get("tags", [])),
                 features=_features(p.get("features", [])),
+                **_extra(p),
             )
             for p in g("clip_predictions", [])
         ]
@@ -193,6 +216,7 @@ class World:
             kwargs["is_issue"] = n["is_issue"]
         if "created_on" in n:
             kwargs["created_on"] = _dtm(n["created_on"])
+        kwargs.update(_extra(n))
         return data.Note(**kwargs)
 
     def _recording(self, r):
@@ -222,7 +246,7 @@ class World:
         kwargs["tags"] = [self.tags[i] for i in r.get("tags", [])]
         kwargs["features"] = _features(r.get("features", []))
         kwargs["notes"] = [self._note(n) for n in r.get("notes", [])]
-        kwargs.update(r.get("extra", {}))
+        kwargs.update(_extra(r))
         return data.Recording(**kwargs)
 
     def _annotation_common(self, a):
@@ -234,6 +258,7 @@ class World:
             kwargs["created_by"] = self.users[a["created_by"]]
         if "created_on" in a:
             kwargs["created_on"] = _dtm(a["created_on"])
+        kwargs.update(_extra(a))
         return kwargs
 
     def _predicted_tags(self, items):
@@ -254,6 +279,7 @@ class World:
         if m.get("score") is not None:
             kwargs["score"] = m["score"]
         kwargs["metrics"] = _features(m.get("metrics", []))
+        kwargs.update(_extra(m))
         return kwargs
 
     def _match(self, m):
@@ -269,6 +295,7 @@ class World:
         }
         if e.get("score") is not None:
             kwargs["score"] = e["score"]
+        kwargs.update(_extra(e))
         return kwargs
 
     def _clip_evaluation(self, e):
@@ -291,6 +318,7 @@ class World:
         }
         if "created_on" in t:
             kwargs["created_on"] = _dtm(t["created_on"])
+        kwargs.update(_extra(t))
         return data.AnnotationTask(**kwargs)
 
     # -- roots
@@ -336,6 +364,7 @@ class World:
             kwargs["tasks"] = [self.tasks[i] for i in r["tasks"]]
         if "metrics" in r:
             kwargs["metrics"] = _features(r["metrics"])
+        kwargs.update(_extra(r))
         return kwargs
 
     def root(self, kind: str):
